@@ -173,7 +173,7 @@ func (c *Collection) Replace(query, repl, sort bsonkit.Doc) (*Result, error) {
 		if err != nil {
 			return nil, err
 		}
-	} else if replID != bsonkit.Get(list[0], "_id") {
+	} else if bsonkit.Compare(replID, bsonkit.Get(list[0], "_id")) != 0 {
 		return nil, fmt.Errorf("document _id is immutable")
 	}
 
@@ -263,7 +263,7 @@ func (c *Collection) Update(query, update, sort bsonkit.Doc, skip, limit int, ar
 
 	// check ids
 	for i, doc := range newList {
-		if bsonkit.Get(doc, "_id") != bsonkit.Get(list[i], "_id") {
+		if bsonkit.Compare(bsonkit.Get(doc, "_id"), bsonkit.Get(list[i], "_id")) != 0 {
 			return nil, fmt.Errorf("document _id is immutable")
 		}
 	}
